@@ -296,6 +296,31 @@ def check_verdicts(idx, run):
                             and ast.unparse(dnodes[-1].ast.value.func) in \
                             allowed_guards[ttxt]:
                         good = True
+            # the test applied must fit the class of subscript: the
+            # constant-subscript test only when NO loop variable occurs,
+            # the distance test only for exactly one loop variable
+            if good and meth == "_is_loop_carried_dependency":
+                pth = [(ast.unparse(n.ast.test), lab) for n, lab in path[:k]
+                       if n.kind == "test" and isinstance(n.ast, ast.If)]
+                src = ast.unparse(dnodes[-1].ast.value.func)
+                need = None
+                if src.endswith("_independent_0_var"):
+                    need = ("len(set_of_vars) == 0", "true")
+                elif src.endswith("_get_dependency_distance"):
+                    need = ("len(set_of_vars) == 1", "true")
+                elif src.endswith("_independent_multi_subscript"):
+                    need = ("len(subscripts) == 1", "false")
+                if need is not None and need not in pth:
+                    good = False
+                    run.finding(
+                        "C08.R2", cons,
+                        f"{src.split('.')[-1]} used outside its case",
+                        f"{src.split('.')[-1]} decides independence on a "
+                        f"path that is not guarded by `{need[0]}` being "
+                        f"{need[1]}: e.g. the constant-subscript test "
+                        f"applied to subscripts that still contain an "
+                        f"inner loop variable treats b(j,i)/b(j-1,i-1) as "
+                        f"never overlapping", loc(mod, rnode.ast))
             run.check(
                 "C08.R2", good, cons, "True only under an independence "
                 "proof", f"a path returns True (independent) that is not "
@@ -480,12 +505,28 @@ def check_scalar_facts(idx, run):
     run.floor("scalar True-paths", ntrue, 1)
 
 
+def check_never_equal(idx, run):
+    """The constant-subscript test relies on SymbolicMaths.never_equal: it
+    may answer True only for a single constant non-zero integer difference
+    (shared rule with C17, reported here under C08.R2)."""
+    from rules import c17_symbolic_maths as c17
+
+    class Proxy:
+        def __getattr__(self, name):
+            return getattr(run, name)
+
+        def check(self, rule, ok, *args, **kwargs):
+            return run.check("C08.R2", ok, *args, **kwargs)
+    c17.check_verdicts(idx, Proxy())
+
+
 def check(idx, run):
     run.explanation = __doc__
     eff = Effects(idx)
     check_progress(idx, run, eff)
     check_verdicts(idx, run)
     check_distance(idx, run)
+    check_never_equal(idx, run)
     check_scalar_facts(idx, run)
     run.assumptions = ["SymPy terminates and is correct",
                        "soundness of the subscript tests themselves is not "
